@@ -82,6 +82,7 @@ pub fn creds_alphabet() -> Vec<Creds> {
         Creds::Long { user: "MixedCase User".into(), realm: "Realm.EXAMPLE".into(), pass: "PassWord".into() },
         Creds::Short("UPPER lower".into()),
     ]
+    // (the decorated family of C04 adds credentials with other kinds of spaces, composed characters ...)
 }
 
 impl Prog {
